@@ -126,7 +126,6 @@ static void do_op(Cmd *c) {
         o_stat(st); o(" ");
     } else if (is_op(c, "new_default")) {
         if (l) { o("st=- busy "); goto done; }
-        default_mode = 1;
         enum cc_stat st = cc_list_new(&L[k]); if (st != CC_OK) L[k] = NULL;
         o_stat(st); o(" ");
     } else if (is_op(c, "destroy") || is_op(c, "destroy_cb")) {
